@@ -255,7 +255,8 @@ def run(ctx):
                           "abs": {"kind": "group", "lst": lst, "attrs": attrs},
                           "args": {"lst": lst, "attrs": attrs, "nested": nested, "container": cont,
                                    "as_list": ctx.rng.random() < 0.5,
-                                   "how": ctx.rng.choice(["method", "method", "into", "function", "plss"])}})
+                                   "how": ctx.rng.choice(["method", "method", "into", "function", "plss", "into_empty"]),
+                                   "into_via": ctx.rng.choice(["method", "function"])}})
     # entry paths: every path x every single kind, then mixtures
     k = 0
     for target in ("TractList", "TRSList"):
